@@ -295,6 +295,13 @@ def make_model_image(shape, model, params_table, *, model_shape=None,
         x0 = getattr(model, x_name).value
         y0 = getattr(model, y_name).value
 
+        if i == 0:
+            # the image carries the model's output units whether or not
+            # this (or any other) source overlaps the image
+            unit = getattr(model(x0, y0), 'unit', None)
+            if unit is not None:
+                image <<= unit
+
         if variable_shape:
             mod_shape = model_shape[i]
         elif model_shape is None:
@@ -320,8 +327,6 @@ def make_model_image(shape, model, params_table, *, model_shape=None,
                                           mode=discretize_method,
                                           factor=discretize_oversample)
 
-            if i == 0 and isinstance(subimg, u.Quantity):
-                image <<= subimg.unit
             try:
                 image[slc_lg] += subimg + local_bkg[i]
             except u.UnitConversionError as exc:
